@@ -86,7 +86,7 @@ def _build(c, tmp):
         os.chdir(tmp)
         c = {k: v for k, v in c.items() if k not in ("output_dir", "output_label")}
     else:
-        c = dict(c, output_dir=tmp, output_label="ck")
+        c = dict(c, output_dir=(__import__("pathlib").Path(tmp) if c.get("pathlib") else tmp), output_label="ck")
     if c.get("pool") == "threadlike":
         c["pool"] = _ThreadPoolLike()
     return runs.build(c)
@@ -122,13 +122,14 @@ def scenario(cfg, n_resume, seed2, second_gen=False):
         if not saves:
             out["bad"].append(("no-checkpoint-written", "run(save_every=1) wrote no checkpoint"))
             return out
-        for sv in saves:
+        for k, sv in enumerate(saves):
             if not os.path.exists(sv["path"]):
                 out["bad"].append(("checkpoint-missing", f"{os.path.basename(sv['path'])} not on disk after save"))
                 continue
             s2 = _build(c, tmp)[0]
             try:
-                s2.load_state(sv["path"])
+                # paths are handed over as str or as pathlib.Path (both documented), alternating
+                s2.load_state(__import__("pathlib").Path(sv["path"]) if (c.get("pathlib") and k % 2 == 0) else sv["path"])
             except Exception as e:
                 out["bad"].append(("load-raises", f"load_state({os.path.basename(sv['path'])}) raised {type(e).__name__}: {e}"))
                 continue
@@ -165,7 +166,8 @@ def scenario(cfg, n_resume, seed2, second_gen=False):
             try:
                 with attach.Hooks() as hk:
                     attach.iteration_budget(hk, 400)
-                    s3.run(n_total=nt3, progress=bool(c.get("progress")), resume_state_path=sv["path"])
+                    s3.run(n_total=nt3, progress=bool(c.get("progress")),
+                           resume_state_path=(__import__("pathlib").Path(sv["path"]) if c.get("pathlib") else sv["path"]))
             except Exception as e:
                 out["bad"].append(("resume-raises", f"run(resume_state_path={os.path.basename(sv['path'])}) raised {type(e).__name__}: {e}\n{fmt_exc()[-500:]}"))
                 continue
@@ -685,7 +687,7 @@ def run():
     # the same with the progress display on (run()'s default): the live bar is part of what a checkpoint pickles; incl. readers
     # with clustering and cluster_every > 1
     for j, i in enumerate(ck.pick([6, 9, 2], [6, 9, 2, 1, 0, 5, 12, 11])):
-        tasks.append(("tvf.checks.c08:scenario", dict(cfg=dict(make_cfg(i, ck.subseed("pcfg", i)), progress=True), n_resume=2, seed2=ck.subseed("pres", i)), None))
+        tasks.append(("tvf.checks.c08:scenario", dict(cfg=dict(make_cfg(i, ck.subseed("pcfg", i)), progress=True, pathlib=bool(j % 2 == 0)), n_resume=2, seed2=ck.subseed("pres", i)), None))
     # particle coordinates in another precision than double (the prior transform's dtype is part of the particle state a checkpoint restores)
     for j, xd in enumerate(ck.pick(["longdouble", "float32"], ["longdouble", "float32", "longdouble", "float32"])):
         tasks.append(("tvf.checks.c08:scenario", dict(cfg=dict(make_cfg([0, 2, 4, 1][j], ck.subseed("xd", j)), xdtype=xd), n_resume=2, seed2=ck.subseed("xdr", j)), None))
@@ -703,6 +705,8 @@ def run():
         ck.case(dict(restore_resume=cfg), nontrivial=val["nontrivial_resume"] > 0)
         if cfg.get("xdtype"):
             ck.event("restore / resume scenarios with particle coordinates in float32 or extended precision")
+        if cfg.get("pathlib"):
+            ck.event("restore / resume scenarios with output_dir / state paths given as pathlib.Path")
         if cfg.get("default_dir"):
             ck.event("restore / resume scenarios with output_dir / output_label at their defaults (./states/ps_*.state)")
         if cfg.get("progress"):
